@@ -33,7 +33,7 @@ int main(void) {
     if (ok && e == 0) {
       CHECK(len >= 14 + 4, "success needs the header and four signature bytes (the validation byte may coincide with the START byte)");
       uint8_t kind = vf_files[0].data[len - 5]; uint32_t stored = (uint32_t)vf_files[0].data[len - 4] | (uint32_t)vf_files[0].data[len - 3] << 8 | (uint32_t)vf_files[0].data[len - 2] << 16 | (uint32_t)vf_files[0].data[len - 1] << 24;
-      uint32_t want = 0; for (uint64_t i = 0; i < 14 + NEXTRA; i++) if (i + 4 < len) want = kind == 1 ? 31u * want + vf_files[0].data[i] : want + vf_files[0].data[i];
+      uint32_t want = 0; for (uint64_t i = 0; i < 14 + NEXTRA; i++) if (i + 4 < len) want = kind == 1 ? ZSTUB_CRC_STEP(want, vf_files[0].data[i]) : want + vf_files[0].data[i];
       CHECK((kind == 1 || kind == 2) && stored == want && sig == want, "success only if the stored signature is the signature of the bytes present"); } }
 #endif
   WITNESS_POINT();
